@@ -20,7 +20,7 @@ func main() {
 		Rule: "family chains: every chain program of length 1..5 (thorough: 1..7) over 7 handler behaviours {return, Next-then-return, Abort, Next-then-Abort, Abort-then-Next, Next twice, AbortWithStatus}, the handlers split over engine.Use / group.Use / route handlers at every split point (quick: one seeded split per program), run through Engine.ServeHTTP under an online trace checker and compared with a reference chain interpreter; " +
 			"family groups: seeded registration programs (nested groups to depth 3, Use before and after route registration) probed with matched, unmatched and wrong-method requests; distinct = the program itself (enumeration without repeats) / hash of the registration program; non-trivial = chain length >= 2",
 		Assumptions: []string{
-			"a Use on a group after one of its child groups was created is only generated once that child's routes are all registered (gin-style snapshot semantics make the other order ambiguous in the property text)",
+			"Use on a group that already has child groups is not generated (snapshot semantics make that order ambiguous in the property text); everything else — sibling groups, their Use calls and their routes — is registered in a random interleaving",
 			"404/405 traces must contain every engine-level middleware registered before the request is served, in registration order, before the NoRoute/NoMethod handlers",
 		},
 		Exhaustive:      func(t string) bool { return true },
@@ -284,7 +284,7 @@ type routeExp struct {
 }
 
 func groups(w *mon.W) {
-	w.Cases("groups", uint64(w.Pick(3000, 60000)), func(c *mon.Case) {
+	w.Cases("groups", uint64(w.Pick(20000, 400000)), func(c *mon.Case) {
 		r := c.R
 		var trace []string
 		mw := func(name string) app.HandlerFunc {
@@ -304,53 +304,84 @@ func groups(w *mon.W) {
 		var engineUses []string
 		n := 0
 		name := func(p string) string { n++; return fmt.Sprintf("%s%d", p, n) }
-		var build func(g *route.RouterGroup, base string, inherited []string, depth int, isEngine bool)
-		build = func(g *route.RouterGroup, base string, inherited []string, depth int, isEngine bool) {
-			cur := append([]string{}, inherited...)
-			use := func() {
-				nm := name("m")
-				g.Use(mw(nm))
-				cur = append(cur, nm)
-				if isEngine {
-					engineUses = append(engineUses, nm)
+		// registration program: a random interleaving of operations over all groups created
+		// so far (so sibling groups and their routes are registered in mixed order).  The
+		// model is the snapshot rule: a group's chain = its parent's chain when the group was
+		// created ++ its own Use calls so far; a route's chain = its group's chain at
+		// registration ++ its own handlers.  Use on a group that already has child groups is
+		// not generated (the property text is ambiguous about it).
+		type grp struct {
+			g        *route.RouterGroup
+			base     string
+			chain    []string
+			depth    int
+			isEngine bool
+			children int
+		}
+		groupsL := []*grp{{g: &e.RouterGroup, isEngine: true}}
+		nops := 4 + r.Intn(14)
+		for k := 0; k < nops; k++ {
+			G := groupsL[r.Intn(len(groupsL))]
+			switch r.Intn(5) {
+			case 0, 1: // Use (one at a time, or several at once)
+				if G.children > 0 {
+					continue
 				}
-				ops = append(ops, fmt.Sprintf("Use(%s,%s)", base, nm))
-			}
-			for k := r.Intn(3); k > 0; k-- {
-				use()
-			}
-			for k := 1 + r.Intn(4); k > 0; k-- {
-				switch r.Intn(4) {
-				case 0, 1: // route with 1..2 own handlers
-					p := fmt.Sprintf("%s/r%d", base, len(routes))
-					m := r.Str("GET", "POST")
-					hn := name("h")
-					hs := []app.HandlerFunc{}
-					chain := append([]string{}, cur...)
-					if r.Bool() {
-						rm := name("rm")
-						hs = append(hs, mw(rm))
-						chain = append(chain, rm)
-					}
-					hs = append(hs, h(hn))
-					chain = append(chain, hn)
-					g.Handle(m, strings.TrimPrefix(p, base), hs...)
-					routes = append(routes, routeExp{m, p, chain})
-					ops = append(ops, fmt.Sprintf("%s(%s)", m, p))
-				case 2: // child group, fully registered before anything else happens on g
-					if depth < 3 {
-						seg := fmt.Sprintf("/g%d", n)
-						n++
-						child := g.Group(seg)
-						ops = append(ops, fmt.Sprintf("Group(%s%s)", base, seg))
-						build(child, base+seg, cur, depth+1, false)
-					}
-				case 3: // late Use (after some routes/children exist)
-					use()
+				cnt := 1
+				if r.Chance(4) {
+					cnt = 2 + r.Intn(2)
 				}
+				var hs []app.HandlerFunc
+				var nms []string
+				for j := 0; j < cnt; j++ {
+					nm := name("m")
+					hs = append(hs, mw(nm))
+					nms = append(nms, nm)
+				}
+				G.g.Use(hs...)
+				G.chain = append(G.chain, nms...)
+				if G.isEngine {
+					engineUses = append(engineUses, nms...)
+				}
+				ops = append(ops, fmt.Sprintf("Use(%s,%v)", G.base, nms))
+			case 2, 3: // route with 1..2 own handlers
+				p := fmt.Sprintf("%s/r%d", G.base, len(routes))
+				m := r.Str("GET", "POST")
+				hn := name("h")
+				hs := []app.HandlerFunc{}
+				chain := append([]string{}, G.chain...)
+				if r.Bool() {
+					rm := name("rm")
+					hs = append(hs, mw(rm))
+					chain = append(chain, rm)
+				}
+				hs = append(hs, h(hn))
+				chain = append(chain, hn)
+				G.g.Handle(m, strings.TrimPrefix(p, G.base), hs...)
+				routes = append(routes, routeExp{m, p, chain})
+				ops = append(ops, fmt.Sprintf("%s(%s)", m, p))
+			case 4: // child group, with or without handlers of its own
+				if G.depth >= 3 {
+					continue
+				}
+				seg := fmt.Sprintf("/g%d", n)
+				n++
+				var hs []app.HandlerFunc
+				chain := append([]string{}, G.chain...)
+				if r.Chance(3) {
+					nm := name("gm")
+					hs = append(hs, mw(nm))
+					chain = append(chain, nm)
+				}
+				child := G.g.Group(seg, hs...)
+				G.children++
+				groupsL = append(groupsL, &grp{g: child, base: G.base + seg, chain: chain, depth: G.depth + 1})
+				ops = append(ops, fmt.Sprintf("Group(%s%s, own=%d)", G.base, seg, len(hs)))
 			}
 		}
-		build(&e.RouterGroup, "", nil, 0, true)
+		if len(routes) == 0 {
+			return
+		}
 		e.NoRoute(h("noroute"))
 		e.NoMethod(h("nomethod"))
 		c.Detail = func() interface{} { return map[string]interface{}{"registration": ops} }
